@@ -741,13 +741,13 @@ fn z_score(d: ContinuousDistribution, x: float)->float{
 struct Date(year: int, month: int, day: int)
 
 fn date(jd: int)->Date{
-    let f = jd + 1401 + trunc((trunc((4*jd + 274277)/146097) * 3)/4) - 38;
+    let f = jd + 1401 + ((4*jd + 274277).div_floor(146097) * 3).div_floor(4) - 38;
     let e = 4*f+3;
-    let g = trunc((e % 1461)/4);
+    let g = (e % 1461).div_floor(4);
     let h = 5*g+2;
-    let days = trunc((h % 153) / 5) + 1;
-    let months = (trunc(h/153) + 2)%12 + 1;
-    let years = trunc(e/1461) - 4716 + trunc((14 - months)/12);
+    let days = (h % 153).div_floor(5) + 1;
+    let months = (h.div_floor(153) + 2)%12 + 1;
+    let years = e.div_floor(1461) - 4716 + (14 - months).div_floor(12);
     Date(years, months, days)
 }
 
@@ -764,10 +764,10 @@ fn julian_day(date: Date)->int{
     let month = date::month;
     let day = date::day;
 
-    let a = trunc((14 - month) / 12);
+    let a = (14 - month).div_floor(12);
     let y = year + 4800 - a;
     let m = month + 12 * a - 3;
-    day + trunc((153 * m + 2)/5) + y*365 + trunc(y/4) - trunc(y/100) + trunc(y/400) - 32045
+    day + (153 * m + 2).div_floor(5) + y*365 + y.div_floor(4) - y.div_floor(100) + y.div_floor(400) - 32045
 }
 
 fn to_str(d: Date)->str{
